@@ -116,6 +116,25 @@ class SE:
         return " + ".join(parts) if parts else "0"
 
 
+def se_diff(a, b, pre=""):
+    """the components in which two normalised size expressions differ: [(component, shown in a, shown in b)]"""
+    out = []
+    if a.const != b.const:
+        out.append((pre + "const", str(a.const), str(b.const)))
+    for k in sorted(set(a.atoms) | set(b.atoms), key=repr):
+        if a.atoms.get(k, 0) != b.atoms.get(k, 0):
+            out.append((pre + "atom " + show_atom(k), str(a.atoms.get(k, 0)), str(b.atoms.get(k, 0))))
+    for p in sorted(set(a.tables) | set(b.tables)):
+        ta, tb = a.tables.get(p, {}), b.tables.get(p, {})
+        for v in sorted(set(ta) | set(tb)):
+            out += se_diff(ta.get(v) or SE(), tb.get(v) or SE(), pre + "match " + ".".join(p) + "::" + str(v) + " / ")
+    for p in sorted(set(a.opts) | set(b.opts)):
+        out += se_diff(a.opts.get(p) or SE(), b.opts.get(p) or SE(), pre + "[" + ".".join(p) + " is Some] / ")
+    if a.serialised != b.serialised:
+        out.append((pre + "serialised", str(a.serialised), str(b.serialised)))
+    return out
+
+
 def show_atom(a):
     if a[0] == "len":
         return f"{a[2]}*len({'.'.join(a[1])})"
